@@ -670,7 +670,27 @@ def _regex_match(I, pattern, flags, text, pos, mode):
         lang = tr.body
     else:
         lang = tr.match_language() if tr.anchored_start else z3.Concat(R.FULL, tr.match_language())
-    if I.p.choose(z3.InRe(rest, lang)):
+    if getattr(p.engine, 'regex_forget_nonmatch', False) and mode == 'match':
+        # over-approximation chosen by the target: a failed match tells nothing (the path keeps no negated regular-expression
+        # constraint); sound for universally quantified postconditions, which then hold for a superset of the reachable states
+        fc = p.engine.func_cache.get(('regex-firstchar', key), 0)
+        if fc == 0:
+            fc = _decided_by_first_char(pattern, flags, lang)
+            p.engine.func_cache[('regex-firstchar', key)] = fc
+        if fc is not None:
+            # lemma (decided once per pattern): the match succeeds iff the subject is non-empty and starts with a character of the
+            # class fc - both outcomes are then cheap, exact first-character constraints (this keeps e.g. "CHAR or INVALID always
+            # match", the progress argument)
+            first = z3.SubString(rest, 0, 1)
+            hit = p.choose(z3.And(z3.Length(rest) > 0, z3.InRe(first, R.ranges_to_re(fc))))
+        else:
+            p.counter += 1
+            hit = p.choose(z3.Bool(f'matched!{p.counter}'))
+        if hit:
+            p.assume(z3.InRe(rest, lang))
+    else:
+        hit = I.p.choose(z3.InRe(rest, lang))
+    if hit:
         found = p.fresh('str', 'found')
         p.assume(z3.InRe(found.t, tr.body))
         if mode == 'search' and not tr.anchored_start:
@@ -686,6 +706,25 @@ def _regex_match(I, pattern, flags, text, pos, mode):
                 p.assume(found.t == rest)
         return Obj(MatchStub, {'found': found, 'start_': st, 'subject': text})
     return None
+
+
+def _decided_by_first_char(pattern, flags, lang):
+    """ranges C with  match_language == C . Sigma*  (not nullable), else None; C from the automaton, the equation by the solver"""
+    from . import regexlang as R
+    from . import automata as A
+    try:
+        nfa = A.build(pattern, flags, mode='match')
+        atoms = A.boundaries(nfa)
+        dfa = A.DFA(nfa)
+        if dfa.accepts_state(dfa.start):
+            return None
+        C = R._norm_ranges([(a, b) for a, b in atoms if dfa.step(dfa.start, a)])
+        if not C:
+            return None
+        st_, _w, _dt = R.included(z3.Concat(R.ranges_to_re(C), R.FULL), lang, timeout_ms=20000, want_witness=False)
+        return C if st_ == 'unsat' else None
+    except Exception:
+        return None
 
 
 _FL_CACHE = {}
